@@ -183,7 +183,33 @@ pub fn c22_callback_code_encoding() {
     }
 }
 
-// -------------------------------------------------------------------------------- one callback step
+// -------------------------------------------------------------------------------- one executor step per harness
+// Every harness performs exactly ONE step (`TaskState::callback`, `start_task`, `callback`, or drop) from a pre-state that is
+// constructed directly: two callbacks in one harness do not finish under CBMC (measured: one step 3-13 s, two steps > 600 s).
+// The pre-states are exactly the post-states established by the other harnesses (their assertions say so), which is the
+// induction over the number of events.
+#[cfg(kani)]
+fn any_u32() -> u32 { kani::any() }
+#[cfg(not(kani))]
+fn any_u32() -> u32 { 0 }
+#[cfg(kani)]
+fn any_bool() -> bool { kani::any() }
+#[cfg(not(kani))]
+fn any_bool() -> bool { false }
+
+/// pre-state "the work waits on waitable W1": what `c22_pending_on_waitable_waits_on_own_set` ends in
+fn task_waiting_on_w1(steps: [Step; 3], tasks_finished: bool) -> TaskState<'static> {
+    reset(steps);
+    let mut st = TaskState::new(Box::pin(Body));
+    if tasks_finished {
+        // the Rust work has already completed (and was dropped) in an earlier callback
+        st.tasks = Default::default();
+    }
+    st.shared.waitable_register(W1, body_cb, core::ptr::addr_of_mut!(CB_SLOT).cast());
+    sc().registered = true;
+    st
+}
+
 exec_harness! { fn c22_ready_without_waitables_exits() {
     reset([Step::Ready; 3]);
     let mut st = TaskState::new(Box::pin(Body));
@@ -203,22 +229,32 @@ exec_harness! { fn c22_pending_on_waitable_waits_on_own_set() {
     vassert!(rc == CallbackCode::Wait(SET), "C22: something pending and not woken => WAIT on the task's own set");
     vassert!(h().sets_new == 1 && host::joined_set_of(W1) == SET, "C22: the waitable is joined to the task's own waitable set");
     vassert!(st.remaining_work());
-    vassert!(sc().drops == 0);
+    vassert!(sc().drops == 0 && sc().polls == 1);
+    core::mem::forget(st);
+}}
+
+exec_harness! { fn c22_event_is_delivered_once_then_exit() {
+    let mut st = task_waiting_on_w1([Step::Ready; 3], false);
+    vassert!(host::joined_set_of(W1) == SET && st.remaining_work());
     // the host reports the event for W1 with any code
-    let code: u32 = if cfg!(kani) { any_u32() } else { 0 };
+    let code: u32 = any_u32();
     let rc = st.callback(EVENT_SUBTASK, W1, code);
     vassert!(sc().cb_calls == 1 && sc().cb_code == code, "C22: the completion is delivered to its callback exactly once with the host's code");
     vassert!(sc().cb_entry_removed_before, "C22: the waitable leaves the set before its callback runs");
     vassert!(host::joined_set_of(W1) == 0);
+    vassert!(sc().polls == 1, "C22: the work is polled again after the event");
     vassert!(rc == CallbackCode::Exit, "C22: work finished and nothing registered => EXIT");
     vassert!(!st.remaining_work());
-    drop(st);
-    vassert!(sc().drops == 1 && h().sets_new == 1 && h().sets_dropped == 1, "C22: the task's waitable set is dropped exactly once");
+    core::mem::forget(st);
 }}
-#[cfg(kani)]
-fn any_u32() -> u32 { kani::any() }
-#[cfg(not(kani))]
-fn any_u32() -> u32 { 0 }
+
+exec_harness! { fn c22_task_drop_releases_set_once() {
+    let mut st = task_waiting_on_w1([Step::Ready; 3], false);
+    sc().unregister_on_drop = true;
+    drop(st);
+    vassert!(sc().drops == 1 && sc().task_set_during_drop, "C22: destructors run once, with the task installed so they can unregister");
+    vassert!(host::joined_set_of(W1) == 0 && h().sets_new == 1 && h().sets_dropped == 1, "C22: the task's waitable set is dropped exactly once");
+}}
 
 exec_harness! { fn c22_woken_during_poll_yields() {
     reset([Step::PendingWake, Step::Ready, Step::Ready]);
@@ -226,9 +262,8 @@ exec_harness! { fn c22_woken_during_poll_yields() {
     let rc = st.callback(EVENT_NONE, 0, 0);
     vassert!(rc == CallbackCode::Yield, "C22: woken during polling with nothing else to report => YIELD");
     vassert!(h().poll_calls == 0, "C22: no waitables => the set is not polled");
-    let rc = st.callback(EVENT_NONE, 0, 0);
-    vassert!(rc == CallbackCode::Exit);
-    vassert!(sc().polls == 2 && sc().drops == 1);
+    vassert!(sc().polls == 1 && sc().drops == 0);
+    core::mem::forget(st);
 }}
 
 exec_harness! { fn c22_finished_work_with_registered_waitable_waits() {
@@ -236,83 +271,128 @@ exec_harness! { fn c22_finished_work_with_registered_waitable_waits() {
     let mut st = TaskState::new(Box::pin(Body));
     let rc = st.callback(EVENT_NONE, 0, 0);
     vassert!(rc == CallbackCode::Wait(SET), "C22: EXIT only when no registered waitables remain");
-    vassert!(sc().drops == 1);
-    let rc = st.callback(EVENT_SUBTASK, W1, 2);
-    vassert!(sc().cb_calls == 1);
-    vassert!(rc == CallbackCode::Exit);
-    vassert!(sc().polls == 1, "C22: a finished future is not polled again");
+    vassert!(sc().drops == 1 && sc().polls == 1);
+    core::mem::forget(st);
 }}
 
-exec_harness! { fn c22_woken_with_waitables_polls_set_then_yields_or_delivers() {
+exec_harness! { fn c22_finished_work_last_event_exits_without_polling() {
+    let mut st = task_waiting_on_w1([Step::Ready; 3], true);
+    let before = sc().drops;
+    let rc = st.callback(EVENT_SUBTASK, W1, 2);
+    vassert!(sc().cb_calls == 1 && sc().cb_code == 2);
+    vassert!(rc == CallbackCode::Exit, "C22: the last registered waitable completed and no work remains => EXIT");
+    vassert!(sc().polls == 0, "C22: a finished future is not polled again");
+    core::mem::forget(st);
+}}
+
+exec_harness! { fn c22_woken_with_waitables_polls_set_then_yields() {
     reset([Step::PendingWakeRegistered, Step::PendingWakeRegistered, Step::Ready]);
-    let event_ready: bool = if cfg!(kani) { any_bool() } else { false };
-    let code = any_u32();
-    if event_ready {
-        h().poll_answer = (EVENT_SUBTASK, W1, code);
-    }
     let mut st = TaskState::new(Box::pin(Body));
     let rc = st.callback(EVENT_NONE, 0, 0);
-    vassert!(h().poll_calls >= 1, "C22: woken with waitables registered => poll the set before yielding");
-    if event_ready {
-        // the event was delivered and the future polled again (script: wakes again with W1 re-registered) => yield
-        vassert!(sc().cb_calls == 1 && sc().cb_code == code && sc().cb_entry_removed_before);
-        vassert!(sc().polls == 2);
-    } else {
-        vassert!(sc().polls == 1 && sc().cb_calls == 0);
-    }
-    vassert!(rc == CallbackCode::Yield, "C22: woken during polling and the set has nothing (more) to report => YIELD");
-    sc().unregister_on_drop = true;
-    drop(st);
-    vassert!(sc().drops == 1 && sc().task_set_during_drop, "C22: destructors run with the task installed so they can unregister");
-    vassert!(host::joined_set_of(W1) == 0 && h().sets_dropped == 1);
+    vassert!(h().poll_calls == 1, "C22: woken with waitables registered => poll the set before yielding");
+    vassert!(sc().polls == 1 && sc().cb_calls == 0);
+    vassert!(rc == CallbackCode::Yield, "C22: woken during polling and the set has nothing to report => YIELD");
+    core::mem::forget(st);
 }}
-#[cfg(kani)]
-fn any_bool() -> bool { kani::any() }
-#[cfg(not(kani))]
-fn any_bool() -> bool { false }
+
+exec_harness! { fn c22_woken_with_ready_event_delivers_then_polls_again() {
+    reset([Step::PendingWakeRegistered, Step::PendingWakeRegistered, Step::Ready]);
+    let code = any_u32();
+    h().poll_answer = (EVENT_SUBTASK, W1, code);
+    let mut st = TaskState::new(Box::pin(Body));
+    let rc = st.callback(EVENT_NONE, 0, 0);
+    vassert!(h().poll_calls >= 1);
+    vassert!(sc().cb_calls == 1 && sc().cb_code == code && sc().cb_entry_removed_before, "C22: an event found while yielding is delivered once");
+    vassert!(sc().polls == 2, "C22: ... and the work is polled again");
+    vassert!(rc == CallbackCode::Yield);
+    core::mem::forget(st);
+}}
 
 exec_harness! { fn c22_cancel_event_exits_without_polling() {
-    reset([Step::PendingRegister, Step::Ready, Step::Ready]);
-    let mut st = TaskState::new(Box::pin(Body));
-    let rc = st.callback(EVENT_NONE, 0, 0);
-    vassert!(rc == CallbackCode::Wait(SET));
+    let mut st = task_waiting_on_w1([Step::PendingIdle; 3], false);
     let rc = st.callback(EVENT_CANCEL, 0, 0);
     vassert!(rc == CallbackCode::Exit, "C22: cancellation => EXIT");
-    vassert!(sc().polls == 1, "C22: cancellation does not poll the work again");
-    sc().unregister_on_drop = true;
-    drop(st);
-    vassert!(sc().drops == 1 && sc().task_set_during_drop, "C22: on cancellation destructors run once, with the task installed");
-    vassert!(host::joined_set_of(W1) == 0 && h().sets_new == 1 && h().sets_dropped == 1);
+    vassert!(sc().polls == 0, "C22: cancellation does not poll the work again");
+    vassert!(sc().drops == 0, "C22: the caller releases the task (checked in c22_callback_wrapper_*)");
+    core::mem::forget(st);
 }}
 
 // -------------------------------------------------------------------------------- wrappers + context slot
-exec_harness! { fn c22_start_task_and_callback_manage_the_context_slot() {
+exec_harness! { fn c22_start_task_stores_state_and_answers_like_first_callback() {
     reset([Step::PendingRegister, Step::PendingWake, Step::Ready]);
     let rc = start_task(Body);
     vassert!(rc as u32 == CallbackCode::Wait(SET).encode(), "C22: start_task answers like the first callback");
     vassert!(sc().ctx_null_during_poll, "C22: the state slot is empty while a callback runs");
     vassert!(!h().ctx.is_null(), "C22: task state is stored between callbacks");
-    let stored = h().ctx;
-    vassert!(sc().drops == 0);
+    vassert!(sc().drops == 0 && sc().polls == 1);
+}}
+
+exec_harness! { fn c22_start_task_that_finishes_releases_everything() {
+    reset([Step::Ready; 3]);
+    let rc = start_task(Body);
+    vassert!(rc as u32 == CallbackCode::Exit.encode());
+    vassert!(h().ctx.is_null(), "C22: after EXIT the slot stays empty");
+    vassert!(sc().drops == 1 && sc().ctx_null_during_poll, "C22: the task and its future are released exactly once on exit");
+}}
+
+/// pre-state "between callbacks": the boxed task state sits in the context slot (what start_task / a non-exiting callback leave)
+fn stored_task(steps: [Step; 3]) -> *mut u8 {
+    let st = task_waiting_on_w1(steps, false);
+    let p: *mut u8 = Box::into_raw(Box::new(st)).cast();
+    h().ctx = p;
+    p
+}
+
+exec_harness! { fn c22_callback_wrapper_puts_state_back_unless_exit() {
+    let stored = stored_task([Step::PendingWake, Step::Ready, Step::Ready]);
     let rc = unsafe { callback(EVENT_SUBTASK, W1, 0) };
     vassert!(rc == CallbackCode::Yield.encode());
     vassert!(sc().ctx_null_during_poll && h().ctx == stored, "C22: the same state is put back after a non-exiting callback");
-    let rc = unsafe { callback(EVENT_NONE, 0, 0) };
+    vassert!(sc().drops == 0 && sc().cb_calls == 1);
+}}
+
+exec_harness! { fn c22_callback_wrapper_releases_once_on_exit() {
+    let stored = stored_task([Step::Ready; 3]);
+    let rc = unsafe { callback(EVENT_SUBTASK, W1, 0) };
     vassert!(rc == CallbackCode::Exit.encode());
     vassert!(h().ctx.is_null(), "C22: after EXIT the slot stays empty");
     vassert!(sc().drops == 1, "C22: the task and its future are released exactly once on exit");
-    vassert!(sc().polls == 3 && sc().ctx_null_during_poll);
+    vassert!(sc().polls == 1 && sc().ctx_null_during_poll);
     vassert!(h().sets_new == 1 && h().sets_dropped == 1);
 }}
 
-exec_harness! { fn c22_cancel_through_callback_releases_once() {
-    reset([Step::PendingRegister, Step::Ready, Step::Ready]);
+exec_harness! { fn c22_callback_wrapper_cancel_releases_once() {
+    let stored = stored_task([Step::PendingIdle; 3]);
     sc().unregister_on_drop = true;
-    let rc = start_task(Body);
-    vassert!(rc as u32 == CallbackCode::Wait(SET).encode());
     let rc = unsafe { callback(EVENT_CANCEL, 0, 0) };
     vassert!(rc == CallbackCode::Exit.encode());
     vassert!(h().ctx.is_null());
     vassert!(sc().drops == 1 && sc().task_set_during_drop, "C22: cancellation releases the task once, destructors see the task installed");
+    vassert!(sc().polls == 0);
     vassert!(host::joined_set_of(W1) == 0 && h().sets_dropped == 1);
+}}
+
+
+// -------------------------------------------------------------------------------- the C-ABI registration entry points
+// SharedTaskState::{waitable_register, waitable_unregister} keep the task's map and the host's waitable set in step and
+// hand back the previously registered pointer (what WaitableOperation relies on under C18).
+exec_harness! { fn c22_register_unregister_keep_map_and_set_in_step() {
+    reset([Step::Ready; 3]);
+    let st = TaskState::new(Box::pin(Body));
+    let p1: *mut c_void = core::ptr::addr_of_mut!(CB_SLOT).cast();
+    static mut OTHER: u8 = 0;
+    let p2: *mut c_void = core::ptr::addr_of_mut!(OTHER).cast();
+    vassert!(!st.remaining_work());
+    let prev = st.shared.waitable_register(W1, body_cb, p1);
+    vassert!(prev.is_null(), "C22: first registration has no previous pointer");
+    vassert!(host::joined_set_of(W1) == SET && st.remaining_work(), "C22: registered => joined to the task's own set and counted as remaining work");
+    let prev = st.shared.waitable_register(W1, body_cb, p2);
+    vassert!(prev == p1, "C22: re-registration returns the pointer it replaces");
+    vassert!(host::joined_set_of(W1) == SET && h().sets_new == 1);
+    let prev = st.shared.waitable_unregister(W1);
+    vassert!(prev == p2, "C22: unregistering returns the registered pointer");
+    vassert!(host::joined_set_of(W1) == 0 && !st.remaining_work(), "C22: unregistered => removed from the set and from the map");
+    let prev = st.shared.waitable_unregister(W1);
+    vassert!(prev.is_null(), "C22: unregistering something not registered returns null");
+    core::mem::forget(st);
 }}
